@@ -65,6 +65,7 @@ class EngineBase:
         self.opaque_always = set()
         self.real_spec = set()         # opaque spec functions returning a real
         self.axioms = []                  # facts about global constants, assumed at the start of every run
+        self.late_axioms = []             # facts that DEFINE fresh symbols introduced by models mid-run (globally true)
         self.uf = {}
         self.cur_obl_prefix = ""
         self.used_assumptions = set()
@@ -94,9 +95,9 @@ class EngineBase:
                 # guards anyway); only constant folding above decides
                 return True
             from .slicing import relevant
-            cs = relevant(pc, [extra]) + [extra]
+            cs = relevant(list(pc) + self.late_axioms, [extra]) + [extra]
         else:
-            cs = list(pc)
+            cs = list(pc) + self.late_axioms
         key = tuple(c.get_id() for c in cs)
         if key in self._feas_cache:
             return self._feas_cache[key][0]
